@@ -126,6 +126,13 @@ def check(prop, tier):
                            "pre": {k: pre[k] for k in ("ro", "br", "wl", "net", "user", "plan")},
                            "post": {k: post[k] for k in ("ro", "br", "wl", "net", "user", "plan")}, "writes": t["writes"], "panic": t["panic"]}
                 kf = vlib.match_known(prop, sig)
+                if not kf and prop == "C06":
+                    # C06 evaluates every predicate on disturbed histories: a finding listed under the predicate's own
+                    # property is the same finding here
+                    for owner, ns in NAMES.items():
+                        if ns and n in ns:
+                            kf = vlib.match_known(owner, sig)
+                            break
                 if kf:
                     known.append((kf, payload))
                 else:
